@@ -755,7 +755,7 @@ def rx_11(ctx, rep):
                 n_sites += 1
                 key = (rel, q, n.func.attr)
                 if key in RX11_ALLOWED:
-                    rep.ob('RX-11', rel, q, norm(n), True, RX11_ALLOWED[key])
+                    rep.ob('RX-11', rel, q, norm(n), True, reason=RX11_ALLOWED[key])
                 else:
                     rep.ob('RX-11', rel, q, norm(n), False,
                            'str.%s() uses Unicode whitespace / line-break rules, which differ from Python\'s '
